@@ -2,12 +2,14 @@ import os, sys
 sys.path.insert(0, os.path.dirname(os.path.abspath(__file__)))
 PROP = dict(
     props="Props/C06.v",
-    tie={"modules": ["Store", "StoreSpec", "TieC07", "TieC06"],
+    tie={"modules": ["Points", "TiePoints", "Store", "StoreSpec", "TieC07", "TieC06"],   # Points first: Store.op / run shadow Points.op / run
          "fns": {"store_run": ("store_run_run", "store_run_eqb", "(list op) * (list ans)"),
-                 "node_reorg": ("node_reorg_run", "Bool.eqb", "(Z * Z * Z) * bool")}},
+                 "node_reorg": ("node_reorg_run", "Bool.eqb", "(Z * Z * Z) * bool"),
+                 "points": ("points_run", "points_eqb", "(Z * Z * Z * list (Z * Z * elect) * mom * list top) * (list pres)")}},
     suites=[{"bin": "c07", "name": "reorg", "n": {"quick": 140, "thorough": 6000}},
             {"bin": "c07", "name": "deep", "n": {"quick": 4, "thorough": 60}},
-            {"bin": "c06", "name": "nodereorg", "n": {"quick": 45, "thorough": 1500}}],
+            {"bin": "c06", "name": "nodereorg", "n": {"quick": 45, "thorough": 1500}},
+            {"bin": "c06", "name": "points", "n": {"quick": 30, "thorough": 1200}}],
     rule="store-level reorganisations on a real LevelDB manager: sequences (60-100 ops) in which rollbacks are always taken when drawn, so that branches of depth 1..30 are abandoned and replaced, with views opened at every identifier before, during and after the switch (warm overlay cache), cache purges, stale parents; each answer compared with the model and with the map-per-version reference of the CURRENT chain; distinct = distinct sequence; non-trivial = contains a pop and a historical view; suite deep: chains of 368+ commits (beyond the 360-height threshold of the second overlay cache), views of the oldest commits before and after a switch of the top of the chain; suite nodereorg (node level): a generator node with real pillars produces prefix+B, is rolled back and produces a shorter branch A (fork depth 1..30, only some accounts active on A); receiver R gets prefix+A through ChainBridge.InsertChain, opens historical views at every height and receives unconfirmed blocks acknowledging A's frontier, then gets B; reference F gets prefix+B only; R and F are compared on frontier, full ledger dump, historical dumps at every height, unconfirmed pool, EpochStats of every epoch (epoch = 60 momentums), pillar weights, producer schedule of the next 12 slots, and again after a restart of R",
     explanation="Theorems: rollback is an exact inverse (C06_pop_inverse: all later observations equal), a whole abandoned branch leaves no trace (C06_switch_equiv, induction over the branch), and with any interleaving of views/evictions the store answers like the specification whose chain after the switch is the adopted chain (refinement). The theorem is at store level (ledger state and every historical view). Pool and consensus statistics after a node-level reorganisation are covered by the two-node differential suite nodereorg (oracles reorg-pool-differs, reorg-consensus-stats-differ, reorg-schedule-differs, reorg-ledger-state-differs, reorg-historical-view-differs), which is exploration, not proof.",
     assumptions=["well-formed operations (see C07)", "hash collision freedom", "goleveldb semantics"],
